@@ -12,7 +12,7 @@ Proof. reflexivity. Qed.
 
 Lemma spec_len_iff rate d n : spec_len rate d n = true <-> Qabs (d * rate - inject_Z n) <= len_tolerance /\ (0 < n)%Z.
 Proof.
-  unfold spec_len. rewrite andb_true_iff, Qle_bool_iff, Z.ltb_lt. tauto.
+  unfold spec_len. change spec_tolerance with len_tolerance. rewrite andb_true_iff, Qle_bool_iff, Z.ltb_lt. tauto.
 Qed.
 
 Lemma rint_floor_or_succ q : rint q = Qfloor q \/ rint q = (Qfloor q + 1)%Z.
@@ -78,4 +78,27 @@ Proof.
     destruct (all_ok (map (waveform_length rate) ds)) as [lens|]; [|exact IH].
     destruct IH as (A & B & C). repeat split; [exact A|cbn; f_equal; exact B|cbn; rewrite S; exact C].
   - apply waveform_length_err in W. rewrite W. reflexivity.
+Qed.
+
+(* ---- round 5: the specification's own length function (Spec.spec_length: the candidate among floor / floor + 1 that is
+        positive and within the tolerance) is what get_waveform_length computes (round-half-even, tolerance test, sign test) ---- *)
+Lemma spec_len_unique rate d n m : spec_len rate d n = true -> spec_len rate d m = true -> n = m.
+Proof.
+  intros Hn Hm. apply spec_len_iff in Hn as [Hn _]. apply spec_len_iff in Hm as [Hm _].
+  apply Qabs_Qle_condition in Hn as [N1 N2]. apply Qabs_Qle_condition in Hm as [M1 M2]. pose proof tol_small as TS.
+  assert (A : inject_Z (n - m) < 1) by (unfold Zminus; rewrite inject_Z_plus, inject_Z_opp; lra).
+  assert (B : inject_Z (m - n) < 1) by (unfold Zminus; rewrite inject_Z_plus, inject_Z_opp; lra).
+  change 1 with (inject_Z 1) in A, B. rewrite <- Zlt_Qlt in A, B. lia.
+Qed.
+
+Lemma waveform_length_is_spec rate d : waveform_length rate d = spec_length rate d.
+Proof.
+  unfold spec_length. destruct (waveform_length rate d) as [r|] eqn:W.
+  - apply waveform_length_ok in W as [S Nl]. unfold no_len in Nl.
+    cbv zeta in Nl. destruct (spec_len rate d (Qfloor (d * rate))) eqn:F.
+    + f_equal. exact (spec_len_unique rate d _ _ S F).
+    + destruct (spec_len rate d (Qfloor (d * rate) + 1)) eqn:G; [|discriminate].
+      f_equal. exact (spec_len_unique rate d _ _ S G).
+  - apply waveform_length_err in W. unfold no_len in W. apply andb_true_iff in W as [A B].
+    apply negb_true_iff in A, B. rewrite A, B. reflexivity.
 Qed.
